@@ -884,6 +884,14 @@ class FuncInterp(ModelsMixin, CallModelsMixin):
             base = self.ev(tgt.value, st)
             idx = self.ev(tgt.slice, st)
             self.store_subscript(base, idx, v, st, tgt)
+            # m[i][j] = v also changes what the outer container holds
+            root = tgt.value
+            while isinstance(root, ast.Subscript):
+                root = root.value
+            if root is not tgt.value:
+                rv = self.ev(root, st)
+                self.mutate(rv.pts, tgt, "subscript store")
+                self.update_elem(rv, v.add_dep(idx.dep, EMPTY), st)
         elif isinstance(tgt, ast.Starred):
             self.assign(tgt.value, v, st, stmt)
 
